@@ -47,6 +47,8 @@ pub enum Part {
     /// 2^128 - x: an amount whose two's-complement reading is +x. The program must refuse it (LiquidityTooHigh) — a must-fail
     /// self-loop on the pinned tree; a tree that converts it to a signed delta carelessly turns the withdrawal into a deposit
     Wrap(u64),
+    /// x more than the position holds (must be refused: LiquidityUnderflow)
+    Over(u64),
 }
 impl Part {
     /// the liquidity amount the instruction is given when the position currently holds `cur`
@@ -56,6 +58,7 @@ impl Part {
             Part::Half => cur / 2,
             Part::One => 1.min(cur),
             Part::Wrap(x) => (*x as u128).wrapping_neg(),
+            Part::Over(x) => cur.saturating_add(*x as u128),
         }
     }
 }
